@@ -12,7 +12,7 @@ from vf import smt
 from vf.tv import b09front, cbfront, machine, refmap as refmap_mod
 from vf.tv.lex import RefGap, SyntaxErr
 
-DIAG_KINDS = {"uninitialised-read", "arity", "type-class", "unresolved", "missing-argument", "os-call", "read-filter"}
+DIAG_KINDS = {"tmp-read-before-write", "uninitialised-read", "arity", "type-class", "unresolved", "missing-argument", "os-call", "read-filter"}
 TOOL_GLOBALS = re.compile(r"^(TMP_\d+\$?|DISPLAY(\..*)?|PLAY(\..*)?|PID|ERNO|ERRNUM|JOY\d[XY])$")
 
 
